@@ -20,6 +20,12 @@ elif [ "$V" = fine ]; then
   CC=gcc; CXX=g++
   FL="$COMMON -finstrument-functions -finstrument-functions-exclude-file-list=ASM_SSE2,ASM_SSSE3,ASM_SSE4_1,ASM_AVX2,ASM_AVX512,C_DEFAULT,third_party,EbBitstreamUnit,EbCabacContextModel,EbTransforms,EbInvTransforms,EbFullLoop,EbRateDistortionCost,EbCdef.c,EbRestoration,EbAvcStyleMcp,convolve,EbPictureOperators,EbUtility,EbComputeSAD"
   AVX512=OFF
+elif [ "$V" = mem ]; then
+  # like plain, plus a call to the simulator in front of every load/store of library C code (the compiler's -fsanitize=thread
+  # instrumentation, linked against simcore's own hooks instead of the TSan runtime): forced preemption points at memory accesses (DESIGN.md 13.7)
+  CC=gcc; CXX=g++
+  FL="$COMMON -fsanitize=thread"
+  AVX512=OFF
 else
   CC=gcc; CXX=g++
   FL="$COMMON"
